@@ -1,10 +1,12 @@
 #!/usr/bin/env python3
 """Re-run every recorded seeded change against the check of its property (4 isolated workers).
-usage: tools/regress_seeds.py [PROP ...]   → /tmp/seeds/regress.txt
+usage: [REGRESS_TAG=x] tools/regress_seeds.py [PROP ...]   → /tmp/seeds/regress_<tag>.txt (tag default r; use your own tag when others may be running it)
 violating seeds must end in a VIOLATION with a failing input (or be recorded as fact-only / caught by a sibling);
 harmless ones must never produce a failing input."""
 import json, glob, os, subprocess, sys, concurrent.futures as cf, re
 want = set(sys.argv[1:])
+TAG = os.environ.get('REGRESS_TAG', 'r')
+OUT = f'/tmp/seeds/regress_{TAG}.txt'
 jobs = []
 for d in sorted(glob.glob('/verif/seeded/*')):
     try: m = json.load(open(d + '/meta.json'))
@@ -15,7 +17,7 @@ for d in sorted(glob.glob('/verif/seeded/*')):
     jobs.append((sid, p, m.get('kind') == 'harmless' or sid.startswith('b')))
 def run(job, slot):
     sid, p, harmless = job
-    env = dict(os.environ, VSEED_ROOT=f'/tmp/vseed_r{slot}', GOFLAGS='-mod=mod', GOPROXY='off', GOSUMDB='off', GOTOOLCHAIN='local')
+    env = dict(os.environ, VSEED_ROOT=f'/tmp/vseed_{TAG}{slot}', GOFLAGS='-mod=mod', GOPROXY='off', GOSUMDB='off', GOTOOLCHAIN='local')
     out = subprocess.run(['/verif/tools/seedtest.sh', f'/verif/seeded/{sid}/patch.diff', p], env=env, capture_output=True, text=True).stdout
     v = [l for l in out.splitlines() if l.startswith('VIOLATION')]
     nf = [l for l in v if 'no-failing-input-found' in l]
@@ -32,13 +34,13 @@ def worker(slot):
         r = run(j, slot)
         with lock:
             res.append(r)
-            with open('/tmp/seeds/regress.txt', 'a') as f: f.write(' '.join(map(str, r)) + '\n')
-open('/tmp/seeds/regress.txt', 'w').close()
+            with open(OUT, 'a') as f: f.write(' '.join(map(str, r)) + '\n')
+open(OUT, 'w').close()
 ts = [threading.Thread(target=worker, args=(i,)) for i in range(4)]
 [t.start() for t in ts]; [t.join() for t in ts]
 bad = [r for r in res if (r[2] and r[3] == 'failing-input') or (not r[2] and r[3] != 'failing-input')]
 print(len(res), 'seeds re-run;', len(bad), 'to look at:')
 for r in sorted(bad): print('  ', *r)
 for i in range(4):
-    subprocess.run(['git', '-C', '/repo', 'worktree', 'remove', '--force', f'/tmp/vseed_r{i}/repo'], capture_output=True)
-    subprocess.run(['rm', '-rf', f'/tmp/vseed_r{i}'])
+    subprocess.run(['git', '-C', '/repo', 'worktree', 'remove', '--force', f'/tmp/vseed_{TAG}{i}/repo'], capture_output=True)
+    subprocess.run(['rm', '-rf', f'/tmp/vseed_{TAG}{i}'])
